@@ -607,7 +607,10 @@ impl Stdfs {
 
         // Iterate over source taking into account link following
         let src_root = StdfsEntry::from(&src_root)?.follow(cp.follow);
-        for entry in Stdfs::entries(src_root.path())?.follow(cp.follow) {
+        // Take a snapshot of the source first: when copying a directory into its own subtree the copy
+        // would otherwise keep finding (and copying) what it has just created
+        let entries: Vec<RvResult<VfsEntry>> = Stdfs::entries(src_root.path())?.follow(cp.follow).into_iter().collect();
+        for entry in entries {
             let src = entry?;
 
             // Set destination path based on source path
